@@ -44,6 +44,8 @@ def rand_ops(rng, T, cf):
         else:
             W += rng.randint(1, 2)
             ops.append(('widen', W))
+    if rng.random() < 0.15:
+        ops = [('match', rng.randint(1, T))] + ops        # the matcher object was used for another (prefix) trace before
     return ops
 
 
